@@ -38,11 +38,12 @@ def run_tests(scratch):
          "--timeout=20", "--continue-on-collection-errors", "tests"],
         cwd=scratch, env=env, capture_output=True, text=True)
     tail = p.stdout.strip().splitlines()[-1] if p.stdout.strip() else ""
-    # the clean tree gives "1424 passed"; fewer means the suite notices
+    # the clean tree gives "1423 passed" for the tests/ directory alone (the
+    # 1424th stable test lives under docs/); fewer means the suite notices
     import re
     m = re.search(r"(\d+) passed", tail)
     n = int(m.group(1)) if m else -1
-    return "%d passed (%s)" % (n, "suite unchanged" if n == 1424
+    return "%d passed (%s)" % (n, "suite unchanged" if n == 1423
                                else "suite notices")
 
 
